@@ -148,6 +148,26 @@ def gen_op(rng, kind, c, d):
                 ("%s.swap(%s);" % (c, d), "swap"), ("std::swap(%s, %s);" % (c, d), "stdswap"),
                 ("%s = %s;" % (c, d), "copyassign"), ("%s = std::move(%s);" % (c, d), "moveassign"),
                 ("%s.insert(%s.end(), %s.begin(), %s.end());" % (c, c, d, d), "insertrange")]
+        # the other overloads of the size-changing members
+        k2 = rng.choice([0, 1, 2, 3])
+        ops += [("%s.insert(%s.begin(), %d, %s);" % (c, c, k2, lit(rng, kind)), "insertn"), ("%s.erase(%s.begin(), %s.end());" % (c, c, c), "eraserange"),
+                ("%s.assign(%s.begin(), %s.end());" % (c, d, d), "assignrange"), ("%s.resize(%d, %s);" % (c, k2, lit(rng, kind)), "resizefill"),
+                ("%s.assign({%s, %s});" % (c, lit(rng, kind), lit(rng, kind)), "assigninitlist"), ("%s.insert(%s.begin(), {%s, %s});" % (c, c, lit(rng, kind), lit(rng, kind)), "insertinit")]
+        if K["string"]:
+            p0, l0 = rng.choice([0, 0, 1, 2]), rng.choice([0, 1, 2, 9])
+            lits = rng.choice(["", "a", "xy", "abc", "hello"])
+            ops += [("%s.append(%s, %d);" % (c, d, p0), "append_str_pos")] * 2
+            ops += [("%s.append(%s, %d, %d);" % (c, d, p0, l0), "append_str_pos_len"), ('%s.append("%s", %d);' % (c, lits, min(len(lits), l0)), "append_ptr_count"),
+                    ("%s.append(%d, 'z');" % (c, k2), "append_count_ch"), ("%s.append(%s.begin(), %s.end());" % (c, d, d), "append_range"),
+                    ("%s.append({'p', 'q'});" % c, "append_init"),
+                    ("%s.assign(%s, %d);" % (c, d, p0), "assign_str_pos"), ("%s.assign(%s, %d, %d);" % (c, d, p0, l0), "assign_str_pos_len"),
+                    ('%s.assign("%s", %d);' % (c, lits, min(len(lits), l0)), "assign_ptr_count"), ('%s.assign("%s");' % (c, lits), "assign_ptr"),
+                    ("%s.insert(0, %s);" % (c, d), "insert_idx_str"), ('%s.insert(0, "%s");' % (c, lits), "insert_idx_ptr"), ("%s.insert(0, %d, 'z');" % (c, k2), "insert_idx_count_ch"),
+                    ("%s.insert(0, %s, %d, %d);" % (c, d, p0, l0), "insert_idx_str_pos_len"), ('%s.insert(0, "%s", %d);' % (c, lits, min(len(lits), l0)), "insert_idx_ptr_count"),
+                    ("%s.erase(0);" % c, "erase_idx"), ("%s.erase(0, %d);" % (c, l0), "erase_idx_len"), ("%s.erase();" % c, "erase_all"),
+                    ('%s.replace(0, %d, "%s");' % (c, l0, lits), "replace_ptr"), ("%s.replace(0, %d, %s);" % (c, l0, d), "replace_str"),
+                    ("%s.replace(0, %d, %d, 'z');" % (c, l0, k2), "replace_count_ch"), ("%s.replace(0, %d, %s, %d, %d);" % (c, l0, d, p0, l0), "replace_str_pos_len"),
+                    ("%s.replace(%s.begin(), %s.begin(), %s);" % (c, c, c, d), "replace_iter_str")]
         if not K["string"]:
             ops += [("%s.emplace_back(%s);" % (c, x), "emplace_back")] * 2
             ops += [("%s.emplace(%s.begin(), %s);" % (c, c, x), "emplace"), ("%s = {%s, %s};" % (c, x, lit(rng, kind)), "assigninit"),
@@ -501,6 +521,55 @@ ROW_TEMPLATES["multimap"] = dict(_ASSOC, insert=["std::make_pair(1, 5)", "c.begi
 ROW_TEMPLATES["queue"] = {"size": [""], "empty": [""], "swap": ["d"], "push": ["9"], "emplace": ["9", ""], "pop": [""], "front": [""], "back": [""]}
 ROW_TEMPLATES["stack"] = {"size": [""], "empty": [""], "swap": ["d"], "push": ["9"], "emplace": ["9", ""], "pop": [""], "top": [""]}
 
+
+# overload sets of the size-changing members (C++17), with the model's descriptor:
+# lead: ("n",) | ("i", pos) | ("l", pos, len) | ("t",) | ("p", dist)   ("N" stands for the initial size)
+# src:  ("n",) | ("c", count) | ("k", count) | ("e",) | ("s", strlen) | ("q", count) | ("S", m) | ("P", m, pos) | ("L", m, pos, len) | ("r", m) | ("I", m)
+# d always holds 3 elements
+_N, _T = ("n",), ("t",)
+_STR_SRC = [('d', ("S", 3)), ('"xyz"', ("s", 3)), ('"ab\\0cd"', ("s", 2)), ("2, 'z'", ("k", 2)), ("0, 'z'", ("k", 0)), ('"xyz", 2', ("q", 2)),
+            ("d, 1", ("P", 3, 1)), ("d, 0", ("P", 3, 0)), ("d, 3", ("P", 3, 3)), ("d, 1, 1", ("L", 3, 1, 1)), ("d, 0, 9", ("L", 3, 0, 9)), ("d, 2, 0", ("L", 3, 2, 0))]
+_STR_SRC_NOIDX = [("d.begin(), d.end()", ("r", 3)), ("{'p', 'q'}", ("I", 2))]
+OV_TEMPLATES = {"string": []}
+for a, sdesc in _STR_SRC + _STR_SRC_NOIDX:
+    OV_TEMPLATES["string"].append(("append", a, _N, sdesc))
+    OV_TEMPLATES["string"].append(("assign", a, _N, sdesc))
+for a, sdesc in _STR_SRC:
+    OV_TEMPLATES["string"].append(("insert", "0, " + a, ("i", 0), sdesc))
+    OV_TEMPLATES["string"].append(("replace", "0, 0, " + a, ("l", 0, 0), sdesc))
+    if sdesc[0] in "SsqkP" and not (sdesc[0] == "P"):
+        OV_TEMPLATES["string"].append(("replace", "c.begin(), c.begin(), " + a, ("p", 0), sdesc))
+OV_TEMPLATES["string"] += [
+    ("insert", "c.begin(), 'z'", _T, ("e",)), ("insert", "c.begin(), 2, 'z'", _T, ("k", 2)), ("insert", "c.end(), d.begin(), d.end()", _T, ("r", 3)),
+    ("insert", "c.begin(), {'p', 'q'}", _T, ("I", 2)),
+    ("replace", "c.begin(), c.begin(), d.begin(), d.end()", ("p", 0), ("r", 3)), ("replace", "c.begin(), c.end(), {'p'}", ("p", "N"), ("I", 1)),
+    ("replace", "0, 1, d", ("l", 0, 1), ("S", 3)),
+    ("erase", "", _N, _N), ("erase", "0", ("i", 0), _N), ("erase", "0, 1", ("l", 0, 1), _N), ("erase", "c.begin()", _T, _N),
+    ("erase", "c.begin(), c.end()", ("p", "N"), _N), ("erase", "c.begin(), c.begin()", ("p", 0), _N),
+    ("resize", "5", _N, ("c", 5)), ("resize", "0", _N, ("c", 0)), ("resize", "4, 'z'", _N, ("k", 4)),
+    ("push_back", "'q'", _N, ("e",)), ("pop_back", "", _N, _N), ("clear", "", _N, _N),
+]
+for _k in ("vector", "deque", "list"):
+    OV_TEMPLATES[_k] = [
+        ("assign", "2, 9", _N, ("k", 2)), ("assign", "0, 9", _N, ("k", 0)), ("assign", "d.begin(), d.end()", _N, ("r", 3)), ("assign", "{7, 8}", _N, ("I", 2)),
+        ("insert", "c.begin(), 9", _T, ("e",)), ("insert", "c.begin(), 2, 9", _T, ("k", 2)), ("insert", "c.begin(), 0, 9", _T, ("k", 0)),
+        ("insert", "c.end(), d.begin(), d.end()", _T, ("r", 3)), ("insert", "c.begin(), {7, 8}", _T, ("I", 2)),
+        ("erase", "c.begin()", _T, _N), ("erase", "c.begin(), c.end()", ("p", "N"), _N), ("erase", "c.begin(), c.begin()", ("p", 0), _N),
+        ("resize", "5", _N, ("c", 5)), ("resize", "0", _N, ("c", 0)), ("resize", "4, 9", _N, ("k", 4)),
+        ("push_back", "9", _N, ("e",)), ("pop_back", "", _N, _N), ("clear", "", _N, _N),
+    ]
+OV_TEMPLATES["deque"] += [("push_front", "9", _N, ("e",)), ("pop_front", "", _N, _N)]
+OV_TEMPLATES["list"] += [("push_front", "9", _N, ("e",)), ("pop_front", "", _N, _N)]
+
+
+def ov_fields(ov, n0):
+    """the nine fields of the model's `effov` after kind and member"""
+    lead, src = ov
+    num = lambda x: str(n0 if x == "N" else x)
+    l = [lead[0]] + [num(x) for x in lead[1:]] + ["0"] * (3 - len(lead))
+    s = [src[0]] + [num(x) for x in src[1:]] + ["0"] * (4 - len(src))
+    return l + s
+
 ROW_PRELUDE = PRELUDE + "#include <forward_list>\n#include <queue>\n#include <stack>\n#include <iterator>\n"
 
 
@@ -554,8 +623,10 @@ def row_programs(n0s=(0, 1, 3)):
     rows, sites = [], {}
     sid = 0
     for ki, K in enumerate(ROW_KINDS):
-        for meth, tmpls in sorted(ROW_TEMPLATES[K["name"]].items()):
-            for args in tmpls:
+        tl = [(meth, args, None) for meth, tmpls in sorted(ROW_TEMPLATES[K["name"]].items()) for args in tmpls]
+        tl += [(meth, args, (lead, src)) for (meth, args, lead, src) in OV_TEMPLATES.get(K["name"], [])]
+        for meth, args, ov in tl:
+            if True:
                 for n0 in (n0s if K["grow"] else (3,)):
                     fi = len(rows)
                     lines.append("void f%d(int a) {" % fi)
@@ -564,7 +635,8 @@ def row_programs(n0s=(0, 1, 3)):
                     if K["grow"]:
                         for j in range(n0):
                             lines.append("  " + K["grow"] % (j + 1))
-                        lines.append("  " + (K["grow"] % 4).replace("c.", "d."))
+                        for j in (4, 5, 6):
+                            lines.append("  " + (K["grow"] % j).replace("c.", "d."))
                     sid += 1
                     lines.append("  sinkb(%d, c.empty());" % sid)
                     before = sid
@@ -577,7 +649,7 @@ def row_programs(n0s=(0, 1, 3)):
                     lines.append("  sink(%d, %s);" % (sid, K["size"]))
                     lines.append("}")
                     rows.append(dict(kind=ki, kname=K["name"], cid=K["cid"], meth=meth, args=args, nargs=count_args(args), n0=n0,
-                                     before=before, after=sid, fn=fi))
+                                     before=before, after=sid, fn=fi, ov=ov))
     return "\n".join(lines) + "\n", rows, sites
 
 
